@@ -267,6 +267,21 @@ Proof.
   - apply IH; assumption.
 Qed.
 
+Lemma beyond_stuck n s u : beyond n s -> n <= u -> step s u = None.
+Proof. intros B G. destruct (B u G) as [P Q]. unfold step. unfold pcof in P. rewrite P, Q. reflexivity. Qed.
+
+(* any schedule at all: grants to tasks beyond the program list are no-ops *)
+Lemma run_total_le_any n l : forall s, Inv s -> 0 < n -> beyond n s -> total n (run s l) <= total n s.
+Proof.
+  induction l as [|x l IH]; intros s HI Hn B; [cbn; lia|].
+  rewrite run_cons. unfold step_or_skip.
+  destruct (step s x) as [s1|] eqn:E.
+  - destruct (Nat.lt_ge_cases x n) as [L|G]; [|rewrite (beyond_stuck n s x B G) in E; discriminate].
+    pose proof (step_total n s x s1 HI E L).
+    pose proof (IH s1 (step_inv s x s1 HI E) Hn (beyond_step n s x s1 HI Hn B E)). lia.
+  - apply IH; assumption.
+Qed.
+
 (* ---- at rest ---- *)
 Definition transport_blocked (s : state) (t : tid) : Prop :=
   in_transport s t \/ (waits_pc (pcof s t) = true /\ exists h, wr s = Some h /\ in_transport s h).
@@ -294,12 +309,11 @@ Proof. unfold total. reflexivity. Qed.
 Theorem fair_release progs buf pend sched0 :
   let n := length progs in
   let s0 := run (init progs buf pend) sched0 in
-  (forall u, In u sched0 -> u < n) ->
   let N := S (sumf (fun t => progw (nth t progs [])) (seq 0 n)) in
   let s := run s0 (rounds n N) in
   forall t, finished s t \/ awaits_peer s t \/ awaits_app s t \/ transport_blocked s t.
 Proof.
-  intros n s0 Hb N s t.
+  intros n s0 N s t.
   assert (Inv s0) as HI0 by (apply run_inv; apply inv_init).
   destruct (Nat.eq_dec n 0) as [Z|NZ].
   - (* no tasks at all *)
@@ -311,7 +325,7 @@ Proof.
     unfold s, s0. rewrite !R. split; [reflexivity|]. cbn. destruct t; reflexivity.
   - assert (beyond n s0) as B0 by (apply beyond_run; [apply inv_init | lia | apply beyond_init]).
     assert (total n s0 < N) as Hlt.
-    { pose proof (run_total_le n sched0 (init progs buf pend) (inv_init progs buf pend) Hb) as L.
+    { pose proof (run_total_le_any n sched0 (init progs buf pend) (inv_init progs buf pend) ltac:(lia) (beyond_init progs buf pend)) as L.
       assert (total n (init progs buf pend) = sumf (fun t => progw (nth t progs [])) (seq 0 n)) as TI by reflexivity.
       fold s0 in L. rewrite TI in L. unfold N. lia. }
     apply (at_rest n s).
@@ -345,16 +359,15 @@ Definition awaits_verdict (s : state) (t : tid) : Prop :=
 Theorem dead_at_rest progs buf pend sched0 :
   let n := length progs in
   let s0 := run (init progs buf pend) sched0 in
-  (forall u, In u sched0 -> u < n) ->
   let N := S (sumf (fun t => progw (nth t progs [])) (seq 0 n)) in
   let s := run s0 (rounds n N) in
   closed s = true -> stalled s = false ->
   forall t, finished s t \/ awaits_app s t \/ awaits_verdict s t.
 Proof.
-  intros n s0 Hb N s C St t.
+  intros n s0 N s C St t.
   assert (Inv s0) as HI0 by (apply run_inv; apply inv_init).
   assert (s = run (init progs buf pend) (sched0 ++ rounds n N)) as Es by (unfold s, s0; rewrite run_app; reflexivity).
-  destruct (fair_release progs buf pend sched0 Hb t) as [A|[A|[A|A]]]; fold n s0 N s in A.
+  destruct (fair_release progs buf pend sched0 t) as [A|[A|[A|A]]]; fold n s0 N s in A.
   - left. exact A.
   - destruct A as (Pi & rest & [(Ep & Es' & Ev)|(Ep & Esid & Eq & Ec)]).
     + right; right. split; [exact Pi|]. exists rest. auto.
@@ -372,7 +385,7 @@ Proof.
           - apply run_inv. exact HI0.
           - apply beyond_run; [exact HI0 | lia | apply beyond_run; [apply inv_init | lia | apply beyond_init]].
           - apply rounds_rest; [exact HI0|].
-            pose proof (run_total_le n sched0 (init progs buf pend) (inv_init progs buf pend) Hb) as L.
+            pose proof (run_total_le_any n sched0 (init progs buf pend) (inv_init progs buf pend) ltac:(lia) (beyond_init progs buf pend)) as L.
             assert (total n (init progs buf pend) = sumf (fun t => progw (nth t progs [])) (seq 0 n)) as TI by reflexivity.
             fold s0 in L. rewrite TI in L. unfold N. lia.
           - exact St. }
@@ -385,4 +398,60 @@ Proof.
         -- rewrite Pi in X. discriminate.
   - right; left. exact A.
   - exfalso. destruct A as [(A & _)|(_ & h & _ & (A & _))]; congruence.
+Qed.
+
+(* ---- the same for ANY fair schedule: a sequence of segments each of which grants every task at least once ---- *)
+Definition covering (n : nat) (l : list tid) : Prop :=
+  (forall u, In u l -> u < n) /\ (forall u, u < n -> In u l).
+
+Lemma stuck_sub l1 l2 s : (forall u, In u l2 -> In u l1) -> stuck_on l1 s -> stuck_on l2 s.
+Proof. intros H S u Hu. apply S. apply H. exact Hu. Qed.
+
+Lemma segments_stuck n segs : forall s,
+  Forall (covering n) segs -> stuck_on (seq 0 n) s -> run s (concat segs) = s.
+Proof.
+  induction segs as [|l segs IH]; intros s F S; [reflexivity|].
+  inversion F as [|? ? (Hb & _) F']; subst. cbn [concat]. rewrite run_app.
+  assert (stuck_on l s) as Sl by (apply (stuck_sub (seq 0 n)); [intros u Hu; apply in_seq; pose proof (Hb u Hu); lia | exact S]).
+  rewrite (run_stuck l s Sl). apply IH; assumption.
+Qed.
+
+Theorem segments_rest n segs : forall s,
+  Forall (covering n) segs -> Inv s -> total n s < length segs -> stuck_on (seq 0 n) (run s (concat segs)).
+Proof.
+  induction segs as [|l segs IH]; intros s F HI Hlt; [cbn in Hlt; lia|].
+  inversion F as [|? ? (Hb & Hc) F']; subst. cbn [concat]. rewrite run_app.
+  destruct (stuck_dec l s) as [S|NS].
+  - assert (stuck_on (seq 0 n) s) as S0 by (apply (stuck_sub l); [intros u Hu; apply Hc; apply in_seq in Hu; lia | exact S]).
+    rewrite (run_stuck l s S), (segments_stuck n segs s F' S0). exact S0.
+  - pose proof (run_progress n l s HI Hb NS) as P.
+    apply IH; [exact F' | apply run_inv; exact HI | cbn [length] in Hlt; lia].
+Qed.
+
+Theorem fair_release_any progs buf pend sched0 segs :
+  let n := length progs in
+  let s0 := run (init progs buf pend) sched0 in
+  Forall (covering n) segs ->
+  sumf (fun t => progw (nth t progs [])) (seq 0 n) < length segs ->
+  let s := run s0 (concat segs) in
+  forall t, finished s t \/ awaits_peer s t \/ awaits_app s t \/ transport_blocked s t.
+Proof.
+  intros n s0 F Hlen s t.
+  assert (Inv s0) as HI0 by (apply run_inv; apply inv_init).
+  destruct (Nat.eq_dec n 0) as [Z|NZ].
+  - left. assert (progs = []) as -> by (destruct progs; [reflexivity | discriminate]).
+    assert (forall sched, run (init [] buf pend) sched = init [] buf pend) as R.
+    { induction sched as [|x l IH]; [reflexivity|]. rewrite run_cons. unfold step_or_skip.
+      assert (step (init [] buf pend) x = None) as E by (unfold step; cbn; destruct x; reflexivity).
+      rewrite E. exact IH. }
+    unfold s, s0. rewrite !R. split; [reflexivity|]. cbn. destruct t; reflexivity.
+  - assert (beyond n s0) as B0 by (apply beyond_run; [apply inv_init | lia | apply beyond_init]).
+    assert (total n s0 < length segs) as Hlt.
+    { pose proof (run_total_le_any n sched0 (init progs buf pend) (inv_init progs buf pend) ltac:(lia) (beyond_init progs buf pend)) as L.
+      assert (total n (init progs buf pend) = sumf (fun t => progw (nth t progs [])) (seq 0 n)) as TI by reflexivity.
+      fold s0 in L. rewrite TI in L. lia. }
+    apply (at_rest n s).
+    + apply run_inv. exact HI0.
+    + apply beyond_run; [exact HI0 | lia | exact B0].
+    + apply segments_rest; assumption.
 Qed.
